@@ -1,8 +1,8 @@
 import JjModel.Lemmas.RevsetResolveH
 import JjModel.Lemmas.RevsetOptPasses3
 /-!
-  C19 lemmas, part 17: `optimize` stays inside the grammar `OkEH` (everything modelled except
-  `reachable`): it never introduces a `reachable` node or an out-of-range commit literal.
+  C19 lemmas, part 17: `optimize` stays inside the grammar `OkEH`: it never introduces an
+  out-of-range commit literal.
 -/
 namespace JjModel.Revset
 
@@ -33,7 +33,7 @@ theorem bottomUp_pres {F : Expr → Option Expr} (hP : Pres g F) :
   | range r x lo hi fp ihr ihx =>
     intro h; rw [bottomUp]; exact pres_finish hP (e1 := .range _ _ lo hi fp) ⟨ihr h.1, ihx h.2⟩
   | dagRange r x ihr ihx => intro h; rw [bottomUp]; exact pres_finish hP (e1 := .dagRange _ _) ⟨ihr h.1, ihx h.2⟩
-  | reachable s d _ _ => intro h; exact absurd h (by simp [OkEH])
+  | reachable s d ihs ihd => intro h; rw [bottomUp]; exact pres_finish hP (e1 := .reachable _ _) ⟨ihs h.1, ihd h.2⟩
   | heads x ih => intro h; rw [bottomUp]; exact pres_finish hP (e1 := .heads _) (ih h)
   | headsRange r x fp f ihr ihx ihf =>
     intro h; rw [bottomUp]
